@@ -19,6 +19,8 @@ def run(res, work, tier, seed):
         vlib.tallycore(work, res, "observation: two overlapping explicit passes leave a stale value (not reachable through the public API after the C08 fix)",
                        expect="GaugeFresh", Script="ScriptC02")
     vlib.run_core_family(res, work, "c02", tier, seed, parts=12, clauses=CLAUSES)
+    from props import corestep
+    corestep.run(res, work, tier, seed, "C02")   # step-level replay of the st-c02 scenarios through TallyCore.tla (drift, not a verdict)
     res.rule = ("executions of the real gauge code under the controlled scheduler: exhaustive DFS over the interleavings of the two atomic stores of Update "
                 "(value, flag) with swap / load / reporter call of a report pass, for one updater against back-to-back passes and against the real report loop "
                 "goroutine (ticks handed out by the scheduler); payload tables: ordinary values, quiet NaNs with payloads and infinities, +-0 and subnormals, "
